@@ -246,17 +246,18 @@ theorem inv_spec (x : Q) (hx : Reduced x) :
 theorem pow_spec (x : Q) (n : ℕ) (hx : Reduced x) :
     Reduced (pow x n) ∧ (pow x n).val = x.val ^ n := by
   obtain ⟨a, b⟩ := x
+  rw [pow_def]
   refine ⟨⟨Nat.pow_pos hx.den_pos, ?_⟩, ?_⟩
   · show Nat.Coprime _ _
-    simp only [pow, Int.natAbs_pow]
+    simp only [Int.natAbs_pow]
     exact Nat.Coprime.pow n n hx.2
-  · simp [pow, div_pow]
+  · simp [div_pow]
 
 theorem sqr_eq_pow (x : Q) : sqr x = pow x 2 := by
-  simp [sqr, pow, _root_.pow_two]
+  simp [sqr, pow_def, _root_.pow_two]
 
 theorem cubic_eq_pow (x : Q) : cubic x = pow x 3 := by
-  simp [cubic, pow, _root_.pow_succ]
+  simp [cubic, pow_def, _root_.pow_succ]
 
 theorem neg_spec (x : Q) (hx : Reduced x) : Reduced (neg x) ∧ (neg x).val = -x.val := by
   refine ⟨by simpa [Reduced, neg] using hx, ?_⟩
